@@ -72,6 +72,9 @@ func genCase(t *rapid.T) Case {
 		c.Via = rapid.SampledFrom([]string{"catar", "catar", "catar", "index"}).Draw(t, "via")
 	}
 	if c.Input == "tar" {
+		// the output writers see nothing but the archive: they are exercised on the archives made
+		// from disk; a tar-stream input is followed to the unpacked tree
+		c.Output = "localfs"
 		c.TarFormat = rapid.SampledFrom([]string{"pax", "pax", "gnu"}).Draw(t, "tarformat")
 		c.AddRoot = rapid.Bool().Draw(t, "addroot")
 		c.DotPrefix = rapid.Bool().Draw(t, "dotprefix")
@@ -173,6 +176,7 @@ func newWriter(kind, dest string, fresh bool) (*writer, error) {
 type result struct {
 	tree *fstree.Node // localfs
 	recs []rec        // gnutar, mtree
+	raw  []byte       // gnutar, mtree: the bytes the writer produced
 }
 
 func (w *writer) finish() (*result, *pipeErr) {
@@ -203,7 +207,7 @@ func parseOutput(kind string, b []byte) (*result, *pipeErr) {
 	if err != nil {
 		return nil, &pipeErr{"read-output", "", err}
 	}
-	return &result{recs: recs}, nil
+	return &result{recs: recs, raw: b}, nil
 }
 
 func hasXattrs(n *fstree.Node) bool {
@@ -471,6 +475,9 @@ func normalise(c Case) Case {
 	if c.Output != "gnutar" && c.Output != "mtree" {
 		c.Output = "localfs"
 	}
+	if c.Input == "tar" {
+		c.Output = "localfs"
+	}
 	if c.N < 1 {
 		c.N = 1
 	}
@@ -650,7 +657,11 @@ func run(c Case) (o hx.Outcome) {
 			if skip[d.Key()] {
 				continue
 			}
-			rp.add(sig(pipe, c.Output, d.Type, d.Field), fmt.Sprintf("%s -> %s (%s): %v", pipe, c.Output, c.Digest, d))
+			typ := d.Type
+			if d.Field == "mtime-post2262" || d.Field == "path-space" { // classes of the input value, whatever the node type
+				typ = "any"
+			}
+			rp.add(sig(pipe, c.Output, typ, d.Field), fmt.Sprintf("%s -> %s (%s): %v", pipe, c.Output, c.Digest, d))
 		}
 	}
 	reportErr := func(pipe string, e *pipeErr, refErr *pipeErr) {
@@ -676,6 +687,7 @@ func run(c Case) (o hx.Outcome) {
 	o.Desc.(map[string]any)["archive_bytes"] = len(catar)
 	refKeys := map[string]bool{}
 	var refErr *pipeErr
+	var refRaw []byte
 	{
 		w, werr := newWriter(c.Output, filepath.Join(dir, "dest-ref"), c.DestFresh)
 		if werr != nil {
@@ -686,6 +698,7 @@ func run(c Case) (o hx.Outcome) {
 			refErr = perr
 			reportErr("catar", perr, nil)
 		} else {
+			refRaw = r.raw
 			ds := compare(S, r, c.Output, false, sha256d)
 			for _, d := range ds {
 				refKeys[d.Key()] = true
@@ -762,6 +775,15 @@ func run(c Case) (o hx.Outcome) {
 	if perr != nil {
 		if !(perr.class == "flag" && notes.flagBad) { // consequence of the flag violation already reported
 			reportErr(pipe, perr, refErr)
+		}
+		return o
+	}
+	if c.Output != "localfs" {
+		// gnu-tar and mtree writers are functions of the archive alone, and this variant unpacks the very
+		// archive the reference pipeline unpacked (and compared with the source): same bytes expected
+		if refErr == nil && !bytes.Equal(r.raw, refRaw) {
+			rp.add(sig(pipe, c.Output, "any", "differs-from-direct"), fmt.Sprintf("%s -> %s (%s): output (%d bytes) differs from what UnTar of the same archive wrote (%d bytes), first difference at %d",
+				pipe, c.Output, c.Digest, len(r.raw), len(refRaw), firstDiff(r.raw, refRaw)))
 		}
 		return o
 	}
@@ -861,14 +883,14 @@ func TestSelf(t *testing.T) {
 	if d := compareFlat(tree, mrecs, "mtree", false, false); len(d) != 0 {
 		fail("a correct mtree listing does not compare equal to its tree: %v", d[0])
 	}
-	bad := strings.NewReplacer("a\\040b", "a b", "mode=4755", "mode=0755", "time=10.000000005", "time=10.        5", "type=char", "type=block", "x\\040y", "x y").Replace(good)
+	bad := strings.NewReplacer("a\\040b", "a b", "mode=1755", "mode=0755", "time=10.000000005", "time=10.        5", "type=char", "type=block", "x\\040y", "x y").Replace(good)
 	mrecs, _ = parseMtree([]byte(bad))
 	var got []string
 	for _, d := range compareFlat(tree, mrecs, "mtree", false, false) {
 		got = append(got, d.Type+":"+d.Field)
 	}
 	sort.Strings(got)
-	if strings.Join(got, " ") != "chr:type file:mode-setid file:path-space root:mtime-format symlink:target-space" {
+	if strings.Join(got, " ") != "chr:type file:path-space root:mode-setid root:mtime-format symlink:target-space" {
 		fail("mtree comparison misses or misnames corruptions: %v", got)
 	}
 }
